@@ -136,7 +136,7 @@ func (c *Conn) PublishRequest(subject, reply string, payload []byte) error {
 	c.mu.Unlock()
 	if fail {
 		if !c.Quiet {
-			c.emit("pubfail "+subject)
+			c.emit("pubfail " + subject)
 		}
 		return ErrPubFail
 	}
@@ -145,9 +145,9 @@ func (c *Conn) PublishRequest(subject, reply string, payload []byte) error {
 	}
 	if !c.Quiet {
 		if reply != "" {
-			c.emit("pub "+subject+" reply="+reply+" "+string(payload))
+			c.emit("pub " + subject + " reply=" + reply + " " + string(payload))
 		} else {
-			c.emit("pub "+subject+" "+string(payload))
+			c.emit("pub " + subject + " " + string(payload))
 		}
 	}
 	c.deliver(subject, reply, payload, false)
@@ -190,7 +190,7 @@ func (c *Conn) deliver(subject, reply string, payload []byte, block bool) int {
 			case s.Ch <- m:
 				n++
 			default:
-				c.emit("slowconsumer "+subject)
+				c.emit("slowconsumer " + subject)
 			}
 		}
 	}
@@ -201,7 +201,7 @@ func (c *Conn) deliver(subject, reply string, payload []byte, block bool) int {
 // blocking while a channel is full (the message is still on its way). It returns the number of
 // deliveries.
 func (c *Conn) Inject(subject, reply string, payload []byte) int {
-	c.emit("inject "+subject+" reply="+reply+" "+string(payload))
+	c.emit("inject " + subject + " reply=" + reply + " " + string(payload))
 	return c.deliver(subject, reply, payload, true)
 }
 
@@ -214,7 +214,7 @@ type Inflight struct {
 // Send publishes a message from the outside world: it is accepted for every subscription that has
 // interest now and delivered later by Arrive.
 func (c *Conn) Send(subject, reply string, payload []byte) []Inflight {
-	c.emit("send "+subject+" reply="+reply+" "+string(payload))
+	c.emit("send " + subject + " reply=" + reply + " " + string(payload))
 	var out []Inflight
 	for _, s := range c.matching(subject) {
 		out = append(out, Inflight{s, &nats.Msg{Subject: subject, Reply: reply, Data: payload, Sub: s.NS}})
@@ -229,7 +229,7 @@ func (c *Conn) Arrive(f Inflight) bool {
 	drop := f.s.dropInflight
 	c.mu.Unlock()
 	if drop {
-		c.emit("arrive-dropped "+f.m.Subject)
+		c.emit("arrive-dropped " + f.m.Subject)
 		return false
 	}
 	vsched.WaitSend(f.s.Ch)
@@ -256,11 +256,11 @@ func (c *Conn) ChanQueueSubscribe(subject, queue string, ch chan *nats.Msg) (*na
 	fail := c.FailSub[k]
 	c.mu.Unlock()
 	if fail {
-		c.emit("subfail "+subject)
+		c.emit("subfail " + subject)
 		return nil, ErrSubFail
 	}
 	if !c.Lenient && BadSubject(subject) {
-		c.emit("subbad "+subject)
+		c.emit("subbad " + subject)
 		return nil, nats.ErrBadSubject
 	}
 	s := &Sub{Subject: subject, Queue: queue, Ch: ch, Active: true}
@@ -286,7 +286,7 @@ func (c *Conn) ChanQueueSubscribe(subject, queue string, ch chan *nats.Msg) (*na
 	c.mu.Lock()
 	c.Subs = append(c.Subs, s)
 	c.mu.Unlock()
-	c.emit("sub "+subject+" q="+queue)
+	c.emit("sub " + subject + " q=" + queue)
 	return s.NS, nil
 }
 
